@@ -11,6 +11,6 @@ cd /verif
 for p in "$@"; do
   out=$(VERIF_REPO=$wt timeout 1200 ./check $p --tier quick 2>&1); rc=$?
   echo "check $p rc=$rc $(echo "$out" | grep -E '^(OK|VIOLATION|MACHINERY)' | head -1 | cut -c1-150)"
-  [ $rc -ne 0 ] && mkdir -p /tmp/seedres && echo "$out" | head -30 | cut -c1-600 > /tmp/seedres/$(basename $(dirname $d))-$(basename $d)-$p.txt
+  [ $rc -ne 0 ] && mkdir -p /tmp/seedres && echo "$out" | head -30 | cut -c1-600 > /tmp/seedres/$(basename $d)-$p.txt
 done
 git -C /repo worktree remove --force $wt
